@@ -51,6 +51,7 @@ class Float_floor(Contract):
     params = {'self': 'Float'}
     returns = 'int'
     properties = ['C02']
+    options = {'split_heavy': True}
 
     def post(self, result):
         return {'floor': result == floor_int3(self._real._s, self._real._exp, self._real._c)}
